@@ -1050,10 +1050,16 @@ class mulgrid(object):
         if isinstance(oldcolname, str) and isinstance(newcolname, str):
             oldcolname, newcolname = [oldcolname], [newcolname]
         try:
-            for olditem, newitem in zip(oldcolname, newcolname):
+            cols = []
+            for olditem in oldcolname:
                 i = self.columnlist.index(self.column[olditem])
-                self.columnlist[i].name = newitem
-                self.column[newitem] = self.column.pop(olditem)
+                cols.append(self.columnlist[i])
+            for col, newitem in zip(cols, newcolname): col.name = newitem
+            # rebuild column and connection dictionaries (so that swapped names don't
+            # overwrite each other, and connections are found under their new names):
+            self.column = dict([(col.name, col) for col in self.columnlist])
+            self.connection = dict([(tuple([col.name for col in con.column]), con)
+                                    for con in self.connectionlist])
             self.setup_block_name_index()
             self.setup_block_connection_name_index()
             return True
